@@ -659,10 +659,10 @@ def c11_tree(rng, depth, unsupported, place_bad):
     """A statement tree; returns (kind, {field: [children]})."""
     import ast
 
-    def stmts(d, n_min=1):
-        return [node(d) for _ in range(rng.randrange(n_min, 3))]
+    def stmts(d, n_min=1, inloop=False):
+        return [node(d, inloop) for _ in range(rng.randrange(n_min, 3))]
 
-    def node(d):
+    def node(d, inloop=False):
         if place_bad[0] and rng.random() < 0.12:
             place_bad[0] -= 1
             k = rng.choice(unsupported)
@@ -670,15 +670,17 @@ def c11_tree(rng, depth, unsupported, place_bad):
             slots = {}
             for f in cls._fields:
                 if f in ("body", "orelse", "finalbody") and d > 0 and rng.random() < 0.5:
-                    slots[f] = stmts(d - 1)
+                    slots[f] = stmts(d - 1, 1, inloop)
             return (k, slots)
         if d <= 0 or rng.random() < 0.45:
-            return (rng.choice(C11_LEAVES), {})
+            # break / continue only inside a loop (anything else is not Python)
+            return (rng.choice(C11_LEAVES if inloop else [x for x in C11_LEAVES if x not in ("Break", "Continue")]), {})
         k = rng.choice(["If", "While", "For", "If", "While", "For", "FunctionDef"] if place_bad[1] else
                        ["If", "While", "For"])
-        slots = {"body": stmts(d - 1)}
+        body_in_loop = inloop if k == "If" else (k in ("While", "For"))
+        slots = {"body": stmts(d - 1, 1, body_in_loop)}
         if k != "FunctionDef":
-            slots["orelse"] = stmts(d - 1, 0)
+            slots["orelse"] = stmts(d - 1, 0, inloop)
         return (k, slots)
 
     return node
@@ -780,7 +782,7 @@ def check_c11(pid, tier, build, props):
     if build["ok"]:
         lines = ["From Coq Require Import String List.", "Import ListNotations.",
                  "From V Require Import Model.Front Gen.Dispatch.", "Local Open Scope string_scope.",
-                 "Definition st (top : list tree) : status := front_status dispatch dispatch_default visits stmt_kinds 12 top.",
+                 "Definition st (top : list tree) : status := front_status dispatch dispatch_default visits stmt_kinds jump_kinds 12 top.",
                  "Definition seq (a b : status) : bool := match a, b with SOk, SOk | SNotImplemented, SNotImplemented "
                  "| SAssertion, SAssertion | SFuel, SFuel => true | _, _ => false end."]
         shard = 100
@@ -807,12 +809,20 @@ def check_c11(pid, tier, build, props):
                                                        "implementation": r}})
     # the property itself on the implementation: an unsupported kind anywhere => NotImplementedError
     for (label, top), r in zip(cases, impl):
+        def live(l):
+            out = []
+            for x in l:
+                out.append(x)
+                if x[0] in ("Return", "Break", "Continue"):
+                    break
+            return out
+
         def has_bad(t, first=True):
             k, slots = t
             if k not in supported:
                 return True
-            return any(has_bad(c, False) or (c[0] == "FunctionDef") for l in slots.values() for c in l)
-        bad = any(has_bad(x) for x in top) or len([x for x in top if x[0] == "FunctionDef"]) > 1
+            return any(has_bad(c, False) or (c[0] == "FunctionDef") for l in slots.values() for c in live(l))
+        bad = any(has_bad(x) for x in live(top)) or len([x for x in live(top) if x[0] == "FunctionDef"]) > 1
         if top[0][0] == "FunctionDef" and bad and r != "SNotImplemented" and len(violations) < 8:
             violations.append({"case": label, "tree": repr(top)[:800],
                                "witness": {"reason": "unsupported statement not refused with NotImplementedError",
